@@ -81,6 +81,18 @@ fn collect_imports(files: &[SourceFileAst]) -> HashSet<String> {
         .collect()
 }
 
+/// `goml run main.gom` names the entry file `main.gom` while the directory
+/// listing yields `./main.gom`; both spellings denote the entry file.
+fn is_same_file(a: &Path, b: &Path) -> bool {
+    if a == b {
+        return true;
+    }
+    match (fs::canonicalize(a), fs::canonicalize(b)) {
+        (Ok(a), Ok(b)) => a == b,
+        _ => false,
+    }
+}
+
 /// Diagnostics carry no file, and callers render ranges against the entry
 /// file. An error in any other file is therefore reported with its own
 /// `path:line:col` in the message and without a range.
@@ -135,7 +147,7 @@ fn load_package(
     }
 
     for path in read_gom_sources(package_dir)? {
-        if entry_path.is_some_and(|entry| entry == path) {
+        if entry_path.is_some_and(|entry| is_same_file(entry, &path)) {
             continue;
         }
         let src = fs::read_to_string(&path)
